@@ -96,6 +96,7 @@ func newRun(e *Engine, fn *ssa.Function) *Run {
 		r.declKey("g|"+name, ghostSort(srt))
 	}
 	for _, sf := range e.cs.Specs {
+		specSymbols[sym(sf.Name)] = true
 		if strings.Contains(smtPreamble, "(declare-fun "+sym(sf.Name)+" ") {
 			continue // built into the preamble (sequence constructors); the spec line only gives its type
 		}
